@@ -345,7 +345,9 @@ func (f *Filter) setRegexFilter(options ParseOptions) error {
 	val = strings.TrimSuffix(val, ".*")
 
 	// special case Filter: host_name ~ ^name$
-	if options&ParseOptimize != 0 && strings.HasPrefix(val, "^") && strings.HasSuffix(val, "$") {
+	// only for plain string columns, "=" has a different meaning for lists and compares the parsed number for numeric columns
+	isStringCol := f.column.DataType == StringCol || f.column.DataType == StringLargeCol
+	if isStringCol && options&ParseOptimize != 0 && strings.HasPrefix(val, "^") && strings.HasSuffix(val, "$") {
 		val2 := strings.TrimPrefix(val, "^")
 		val2 = strings.TrimSuffix(val2, "$")
 		if !hasRegexpCharacters(val2) {
